@@ -44,6 +44,7 @@ static echs_instant_t rdi(const char *s)
 int main(void)
 {
 	static char line[65536];
+	setvbuf(stdout, NULL, _IOLBF, 0);
 	while (fgets(line, sizeof(line), stdin)) {
 		char *a[16];
 		int n = 0;
@@ -103,6 +104,21 @@ int main(void)
 			echs_idiff_t d = {strtoll(a[1], NULL, 10)};
 			size_t z = idiff_strf(buf, sizeof(buf), d);
 			puthex(buf, z); putchar('\n');
+		} else if (!strcmp(op, "c.conv") && n == 6) {
+			/* c.conv SRC Y M D TGT : all-day date in scale SRC rescaled to TGT */
+			echs_instant_t i = {.u = 0};
+			i.y = atoi(a[2]); i.m = atoi(a[3]); i.d = atoi(a[4]); i.H = ECHS_ALL_DAY;
+			i = echs_instant_attach_scale(i, (echs_scale_t)atoi(a[1]));
+			echs_instant_t r = echs_instant_rescale(i, (echs_scale_t)atoi(a[5]));
+			if (echs_nul_instant_p(r)) puts("nul");
+			else {
+				echs_instant_t q = echs_instant_detach_scale(r);
+				printf("%u %u %u s%u\n", q.y, q.m, q.d, (unsigned)echs_instant_scale(r));
+			}
+		} else if (!strcmp(op, "c.ndim") && n == 4) {
+			printf("%u\n", echs_scale_ndim((echs_scale_t)atoi(a[1]), atoi(a[2]), atoi(a[3])));
+		} else if (!strcmp(op, "c.wday") && n == 5) {
+			printf("%u\n", (unsigned)echs_scale_wday((echs_scale_t)atoi(a[1]), atoi(a[2]), atoi(a[3]), atoi(a[4])));
 		} else {
 			puts("bad-op");
 		}
